@@ -4,8 +4,14 @@ use super::*;
 
 pub fn run(ctx: &mut Ctx) {
     let n = ctx.scaled(if ctx.tier == "thorough" { 5_000_000 } else { 160_000 });
-    drive(ctx, Prop::C10, "hist-err", n, Mix { error_sixteenths: 8, max_steps: 16, big_start: false });
+    drive(ctx, Prop::C10, "hist-err", n, Mix { error_sixteenths: 8, max_steps: 16, big_start: false, near_limit: 0, want: Prop::C10 });
     // packets larger than 8192 bytes (as arrive over TCP): insertion must say "too large", never panic
     let n = ctx.scaled(if ctx.tier == "thorough" { 60_000 } else { 2_400 });
-    drive(ctx, Prop::C10, "hist-big", n, Mix { error_sixteenths: 4, max_steps: 6, big_start: true });
+    drive(ctx, Prop::C10, "hist-big", n, Mix { error_sixteenths: 4, max_steps: 6, big_start: true, near_limit: 0, want: Prop::C10 });
+    // compressed packets whose pointer-free size is just under a limit: the limit applies to what the packet
+    // becomes, not to what it is on the wire
+    let n = ctx.scaled(if ctx.tier == "thorough" { 60_000 } else { 2_400 });
+    drive(ctx, Prop::C10, "hist-near-8192", n, Mix { error_sixteenths: 2, max_steps: 5, big_start: false, near_limit: 8192, want: Prop::C10 });
+    let n = ctx.scaled(if ctx.tier == "thorough" { 8_000 } else { 320 });
+    drive(ctx, Prop::C10, "hist-near-65535", n, Mix { error_sixteenths: 2, max_steps: 4, big_start: false, near_limit: 65535, want: Prop::C10 });
 }
